@@ -34,8 +34,12 @@ def leaves(cls, skip=(), headers=("Phreeqc.h", "IPhreeqc.hpp")):
     out = []
     i = 0
     n = len(rows)
+    stack = []      # (indent, member name) of the enclosing class-type members
+    base_ind = rows[0][1] if rows else 0
     while i < n:
         off, ind, text, bits = rows[i]
+        while stack and stack[-1][0] >= ind:
+            stack.pop()
         has_children = i + 1 < n and rows[i + 1][1] > ind
         name = text.split()[-1] if " " in text else text
         if text.startswith("(") or bits:
@@ -50,6 +54,8 @@ def leaves(cls, skip=(), headers=("Phreeqc.h", "IPhreeqc.hpp")):
                     j += 1
                 i = j
                 continue
+            if not text.endswith("(base)") and not text.endswith("(primary base)"):
+                stack.append((ind, name))
             i += 1
             continue
         if name in skip:
@@ -73,9 +79,10 @@ def leaves(cls, skip=(), headers=("Phreeqc.h", "IPhreeqc.hpp")):
         else:
             i += 1
             continue                  # empty classes, unknown leaf types
+        full = ".".join([x[1] for x in stack] + [name])
         if cnt * sz <= 8192:
             for k in range(cnt):
-                out.append((off + k * sz, sz, kind, name if cnt == 1 else "%s[%d]" % (name, k)))
+                out.append((off + k * sz, sz, kind, full if cnt == 1 else "%s[%d]" % (full, k)))
         i += 1
     return out
 
